@@ -1,2 +1,513 @@
-// Package c19: (not built yet)
+// Package c19: redacted URNs are invisible to expressions (non-interference on every reachable
+// expression context).
 package c19
+
+import (
+	"encoding/json"
+	"fmt"
+	"sort"
+	"strings"
+	"time"
+
+	"github.com/nyaruka/goflow/contactql"
+	"github.com/nyaruka/goflow/envs"
+	"github.com/nyaruka/goflow/excellent/functions"
+	"github.com/nyaruka/goflow/excellent/types"
+	"github.com/nyaruka/goflow/flows"
+	"verif/checks/sm"
+	"verif/mc"
+	"verif/world"
+)
+
+func init() {
+	// saves what expressions can see of URNs into results, so that later steps read them back
+	world.ActionSets["saveurn"] = func(f, i int) []any {
+		return []any{
+			world.J{"uuid": world.ActUUID(f, i, 0), "type": "set_run_result", "name": "Seen",
+				"value": "@urns.tel|@contact.urn|@(format_urn(contact.urn))|@contact|@input.urn|@parent.urns.tel|@parent.contact.urn|@child.contact.urn|@(urn_parts(contact.urn).path)"},
+			world.J{"uuid": world.ActUUID(f, i, 1), "type": "send_msg", "text": "@contact @contact.urns @urns @(json(contact)) @(json(urns)) @(json(input)) @(json(parent)) @(json(trigger))"},
+		}
+	}
+	world.ActionSets["chan"] = func(f, i int) []any {
+		return []any{world.J{"uuid": world.ActUUID(f, i, 0), "type": "set_contact_channel", "channel": world.J{"uuid": world.ChanTel, "name": "Tel"}}}
+	}
+	world.ActionSets["addurn"] = func(f, i int) []any {
+		return []any{world.J{"uuid": world.ActUUID(f, i, 0), "type": "add_contact_urn", "scheme": "tel", "path": "@input.text"}}
+	}
+}
+
+var kinds = []string{"A:saveurn", "A:chan", "A:addurn", "Eo", "Es", "W"}
+
+// the two worlds differ only in URN paths and display names (same schemes, same country)
+type twin struct {
+	tel, tel2, twitterid, msgURN, parentTel, refreshedTel, nameless string
+}
+
+var twins = [2]twin{
+	{tel: "tel:+12065551212", tel2: "tel:+12065553434", twitterid: "twitterid:111#ann", msgURN: "tel:+12065551212", parentTel: "tel:+12065553333", refreshedTel: "tel:+12065557777"},
+	{tel: "tel:+12025559876", tel2: "tel:+12025550101", twitterid: "twitterid:222#bob", msgURN: "tel:+12025559876", parentTel: "tel:+12025554444", refreshedTel: "tel:+12025558888"},
+}
+
+// assets: two tel channels whose match prefixes tell the twins' numbers apart (206 vs 202)
+func assetsWith(flowDefs []any) world.J {
+	a := world.BaseAssets()
+	a["channels"] = []any{
+		world.J{"uuid": world.ChanTel, "name": "Tel", "address": "+12065550000", "schemes": []any{"tel"}, "roles": []any{"send", "receive"}, "country": "US", "match_prefixes": []any{"1206"}},
+		world.J{"uuid": world.ChanTel2, "name": "Tel Two", "address": "+12025550000", "schemes": []any{"tel"}, "roles": []any{"send", "receive"}, "country": "US", "match_prefixes": []any{"1202"}},
+		world.J{"uuid": world.ChanTwitter, "name": "Twitter", "address": "nyaruka", "schemes": []any{"twitterid"}, "roles": []any{"send", "receive"}},
+	}
+	a["flows"] = flowDefs
+	return a
+}
+
+type rootSpec struct {
+	Flows    world.FlowSet `json:"flows"`
+	Trigger  string        `json:"trigger"`
+	Policy   string        `json:"policy"`
+	Nameless bool          `json:"nameless"`
+	Pinned   bool          `json:"pinned"`           // the contact's tel URN is already pinned to a channel
+	MsgOther bool          `json:"msg_other_scheme"` // messages arrive from the contact's twitterid URN instead of tel
+}
+
+func (rs *rootSpec) world(t twin) *world.Root {
+	env := world.DefaultEnv()
+	env["redaction_policy"] = rs.Policy
+	tel := t.tel
+	if rs.Pinned {
+		tel += "?channel=" + world.ChanTel
+	}
+	contact := world.J{"uuid": world.UUID("contact"), "id": 1234, "name": "Ann", "language": "eng", "status": "active",
+		"created_on": "2020-01-01T12:00:00.000000000Z", "urns": []any{tel, t.twitterid, t.tel2}}
+	if rs.Nameless {
+		delete(contact, "name")
+	}
+	parent := world.ParentSummary()
+	parent["contact"].(world.J)["urns"] = []any{t.parentTel}
+	refreshed := world.RefreshedContact()
+	refreshed["urns"] = []any{t.refreshedTel}
+	fs := rs.Flows
+	msgURN := t.msgURN
+	if rs.MsgOther {
+		msgURN = t.twitterid
+	}
+	return &world.Root{Assets: assetsWith(world.RenderFlows(fs)), Trigger: rs.Trigger, Contact: contact, Env: env,
+		Opt: world.Options{MaxSteps: 8}, MsgURN: msgURN, Parent: parent, Refreshed: refreshed}
+}
+
+func (rs *rootSpec) String() string {
+	return fmt.Sprintf("%s | trigger=%s policy=%s nameless=%v pinned=%v msg-other-scheme=%v", rs.Flows.String(), rs.Trigger, rs.Policy, rs.Nameless, rs.Pinned, rs.MsgOther)
+}
+
+type replay struct {
+	Spec rootSpec     `json:"spec"`
+	Hist []world.Step `json:"history"`
+}
+
+func hasKind(fs world.FlowSet, pred func(string) bool) bool {
+	for _, f := range fs.Flows {
+		for _, n := range f.Nodes {
+			if pred(n.Kind) {
+				return true
+			}
+		}
+	}
+	return false
+}
+
+func specs(tier string) []rootSpec {
+	var out []rootSpec
+	sets := world.EnumFlowSets(kinds, 2, 1)
+	for _, fs := range sets {
+		// only flows that look at URNs at all
+		if !hasKind(fs, func(k string) bool { return k == "A:saveurn" }) {
+			continue
+		}
+		for _, tr := range []string{"manual", "msg", "flow_action"} {
+			for _, pol := range []string{"urns", "none"} {
+				out = append(out, rootSpec{Flows: fs, Trigger: tr, Policy: pol})
+			}
+		}
+		out = append(out, rootSpec{Flows: fs, Trigger: "msg", Policy: "urns", Nameless: true})
+		out = append(out, rootSpec{Flows: fs, Trigger: "manual", Policy: "urns", Pinned: true})
+		out = append(out, rootSpec{Flows: fs, Trigger: "msg", Policy: "urns", MsgOther: true})
+	}
+	return out
+}
+
+// twinText replaces everything twin-specific that is *allowed* to differ in a dump by the same
+// placeholder? No: nothing is allowed to differ under redaction, so dumps are compared verbatim.
+
+// leaves returns the fully forced context of an execution.
+func leaves(x *world.Exec) []sm.ContextLeaf {
+	ctx := x.Session.CurrentContext()
+	if ctx == nil {
+		return nil
+	}
+	return sm.WalkContext(x.Session.MergedEnvironment(), ctx, nil, 7)
+}
+
+// pathClass turns a context path into a signature component: indices and keys generalised.
+func pathClass(p string) string {
+	var sb strings.Builder
+	inIdx := false
+	for _, r := range p {
+		switch {
+		case r == '[':
+			inIdx = true
+			sb.WriteString("[i]")
+		case r == ']':
+			inIdx = false
+		case inIdx:
+		default:
+			sb.WriteRune(r)
+		}
+	}
+	return sb.String()
+}
+
+// sourceClass maps a differing context path to the object it originates from, so that one leak has
+// one signature: leaf and rendering suffixes are dropped, the contact reached through run/child/
+// parent is the same code as the session contact, and ancestors' renderings (which embed their
+// children) are attributed to "rendering-of-ancestor".
+func sourceClass(p string) string {
+	p = pathClass(p)
+	for _, suf := range []string{".__render__", ".__default__", ".__count__"} {
+		p = strings.TrimSuffix(p, suf)
+	}
+	for _, pre := range []string{".run.contact", ".child.contact", ".parent.contact"} {
+		if strings.HasPrefix(p, pre) {
+			p = ".contact" + strings.TrimPrefix(p, pre)
+		}
+	}
+	for _, pre := range []string{".run.results", ".child.results", ".parent.results"} {
+		if strings.HasPrefix(p, pre) {
+			p = ".results" + strings.TrimPrefix(p, pre)
+		}
+	}
+	switch {
+	case strings.HasPrefix(p, ".contact.channel"):
+		return "contact.channel"
+	case strings.HasPrefix(p, ".contact.urn"), strings.HasPrefix(p, ".urns"):
+		return "contact.urns"
+	case strings.HasPrefix(p, ".results"):
+		return "results(saved-from-an-earlier-template)"
+	case strings.HasPrefix(p, ".input"):
+		return "input" + strings.TrimPrefix(p, ".input")
+	case p == "" || p == ".contact" || p == ".run" || p == ".child" || p == ".parent":
+		return "rendering-of-ancestor" + p
+	}
+	return strings.TrimPrefix(p, ".")
+}
+
+var corpusFuncs []string
+
+func corpus() []string {
+	if corpusFuncs == nil {
+		for name := range functions.XFUNCTIONS {
+			corpusFuncs = append(corpusFuncs, name)
+		}
+		sort.Strings(corpusFuncs)
+	}
+	return corpusFuncs
+}
+
+// envFacts is everything a function can read from the environment.
+func envFacts(env envs.Environment) string {
+	return fmt.Sprintf("country=%s locale=%v tz=%s df=%s tf=%s langs=%v policy=%s", env.DefaultCountry(), env.DefaultLocale(), env.Timezone(), env.DateFormat(), env.TimeFormat(), env.AllowedLanguages(), env.RedactionPolicy())
+}
+
+func judge(c *mc.Ctx, rs *rootSpec, hist []world.Step, doCorpus bool, count bool) []sm.Problem {
+	var ps []sm.Problem
+	add := func(key, what string, args ...any) {
+		ps = append(ps, sm.Problem{Key: key, What: fmt.Sprintf(what, args...)})
+	}
+	var xs [2]*world.Exec
+	for i := range twins {
+		t := sm.Replay(rs.world(twins[i]), hist)
+		if t.HarnessErr != nil {
+			add("harness:"+mc.Hash(t.HarnessErr.Error()), "harness (twin %d): %v", i, t.HarnessErr)
+			return ps
+		}
+		if t.Panic != "" {
+			add("panic:"+mc.PanicSite(t.Panic), "twin %d panicked: %s", i, t.Panic)
+			return ps
+		}
+		xs[i] = t.X
+	}
+	if (xs[0].Err != nil) != (xs[1].Err != nil) {
+		add("twins-diverge:go-error", "one twin returned a Go error: %v / %v", xs[0].Err, xs[1].Err)
+		return ps
+	}
+	if xs[0].Err != nil {
+		return ps
+	}
+	la, lb := leaves(xs[0]), leaves(xs[1])
+	redacted := rs.Policy == "urns"
+	differs := 0
+	firstDiff := ""
+	ctxSources := map[string]bool{} // sources of difference the context walk already reported
+	n := len(la)
+	if len(lb) < n {
+		n = len(lb)
+	}
+	for i := 0; i < n; i++ {
+		if la[i] != lb[i] {
+			differs++
+			if firstDiff == "" {
+				firstDiff = la[i].Path
+				if la[i].Path != lb[i].Path {
+					firstDiff = "shape:" + la[i].Path
+				}
+			}
+			if redacted {
+				ctxSources[sourceClass(la[i].Path)] = true
+				add("context-depends-on-urn:"+sourceClass(la[i].Path), "under redaction the context differs between twins at %s:\n  twin A: %s\n  twin B: %s", la[i].Path, la[i].Value, lb[i].Value)
+			}
+		}
+	}
+	if len(la) != len(lb) {
+		differs++
+		if redacted {
+			add("context-shape-depends-on-urn", "under redaction the context trees have different sizes: %d vs %d leaves", len(la), len(lb))
+		}
+	}
+	ea, eb := envFacts(xs[0].Session.MergedEnvironment()), envFacts(xs[1].Session.MergedEnvironment())
+	if ea != eb {
+		add("environment-differs-between-twins", "environment facts differ: %s / %s", ea, eb)
+	}
+	if count {
+		c.Add("context_leaves_compared", int64(n))
+		if redacted {
+			c.Fact("redacted_state")
+		} else if differs > 0 {
+			c.Fact("unredacted_twins_differ")
+		}
+		c.Outcome(fmt.Sprintf("policy=%s twins-differ=%v", rs.Policy, differs > 0))
+	}
+	if !redacted && differs == 0 && len(la) > 0 {
+		// without the policy expressions do see the URNs
+		add("unredacted-context-does-not-see-urns", "without the redaction policy the twins' contexts are identical: expressions do not see the URNs")
+	}
+	// nameless contacts are shown by id under redaction
+	if redacted && rs.Nameless && xs[0].Session.Contact() != nil && xs[0].Session.Contact().Name() == "" {
+		for _, l := range la {
+			if l.Path == ".contact.__default__" {
+				if count {
+					c.Fact("nameless_formatted")
+				}
+				if l.Value != "1234" {
+					add("nameless-contact-not-shown-by-id", "a contact without a name formats as %q under redaction, expected its id 1234", l.Value)
+				}
+			}
+		}
+	}
+	// second, independent layer: a generated corpus of templates over every context path x every
+	// function with one argument
+	if doCorpus {
+		ctxA, ctxB := xs[0].Session.CurrentContext(), xs[1].Session.CurrentContext()
+		if ctxA != nil && ctxB != nil {
+			envA, envB := xs[0].Session.MergedEnvironment(), xs[1].Session.MergedEnvironment()
+			paths := map[string]bool{}
+			for _, l := range la {
+				p := strings.TrimPrefix(l.Path, ".")
+				for _, suf := range []string{".__render__", ".__default__", ".__count__"} {
+					p = strings.TrimSuffix(p, suf)
+				}
+				if p != "" && !strings.Contains(p, " ") {
+					paths[p] = true
+				}
+			}
+			var plist []string
+			for p := range paths {
+				plist = append(plist, p)
+			}
+			sort.Strings(plist)
+			ev := xs[0].Eng.Evaluator()
+			for _, p := range plist {
+				tpls := []string{"@(" + p + ")", "@(json(" + p + "))"}
+				for _, f := range corpus() {
+					tpls = append(tpls, "@("+f+"("+p+"))")
+				}
+				for _, tpl := range tpls {
+					var oa, ob string
+					pa := mc.Guard(func() { oa, _, _ = ev.Template(envA, ctxA, tpl, nil) })
+					pb := mc.Guard(func() { ob, _, _ = ev.Template(envB, ctxB, tpl, nil) })
+					if count {
+						c.Inc("corpus_templates")
+					}
+					if redacted && (oa != ob || (pa != "") != (pb != "")) {
+						fn := "path"
+						if i := strings.Index(tpl[2:], "("); i > 0 {
+							fn = tpl[2 : 2+i]
+						}
+						src := sourceClass("." + p)
+						// the corpus is an independent second layer: what the context walk already reported
+						// for this state (or an ancestor's rendering embedding it) is not reported twice
+						if ctxSources[src] || (strings.HasPrefix(src, "rendering-of-ancestor") && len(ctxSources) > 0) {
+							continue
+						}
+						_ = fn
+						add("template-depends-on-urn:"+src, "under redaction template %s evaluates differently for the twins: %q vs %q", tpl, oa, ob)
+					}
+				}
+			}
+		}
+	}
+	return ps
+}
+
+func run(c *mc.Ctx) {
+	ss := specs(c.Tier)
+	depth := 2
+	if c.Thorough() {
+		depth = 3
+	}
+	for i := range ss {
+		if !c.Mine(i) {
+			continue
+		}
+		if c.Expired() {
+			c.Cap("time budget reached; every root before the cap was explored completely")
+			break
+		}
+		rs := &ss[i]
+		rootA := rs.world(twins[0])
+		nstates := 0
+		cfg := sm.Cfg{Depth: depth, Events: []string{"msg:+12065550199", "refresh:a", "expire"}, Regimes: []bool{true}, ChoiceBound: 0}
+		cfg.OnNewState = func(t *sm.Trans) {
+			nstates++
+			// corpus layer: all states in the thorough tier, the start state of every 8th root in quick
+			doCorpus := (c.Thorough() && i%4 == 0) || (i%64 == 0 && len(t.Hist) <= 2 && nstates <= 2)
+			c.Inc("evaluations")
+			c.Inc("twin_states")
+			for _, p := range judge(c, rs, t.Hist, doCorpus, true) {
+				c.Violation(p.Key, p.What+"\nroot: "+rs.String()+"\nhistory: "+mc.JSON(t.Hist), replay{Spec: *rs, Hist: t.Hist})
+			}
+			if c.WantSample() && len(t.Hist) == 2 {
+				c.Sample(map[string]any{"root": rs.String(), "history": t.Hist})
+			}
+		}
+		st := sm.Search(rootA, cfg)
+		c.Inc("roots")
+		c.Add("states", int64(st.States))
+		c.Add("transitions", int64(st.Transitions))
+		if st.States > 1 {
+			c.Inc("distinct_nontrivial")
+		}
+	}
+	if c.Shard == 0 {
+		for _, p := range judgeQueries(c) {
+			c.Violation(p.Key, p.What, map[string]any{"queries": true})
+		}
+	}
+}
+
+// judgeQueries: contact queries on URNs are rejected under redaction and accepted without it.
+func judgeQueries(c *mc.Ctx) []sm.Problem {
+	var ps []sm.Problem
+	sa, _, err := world.BuildAssets(assetsWith([]any{}))
+	if err != nil {
+		return []sm.Problem{{Key: "harness:assets", What: err.Error()}}
+	}
+	mkEnv := func(pol string) envs.Environment {
+		e := world.DefaultEnv()
+		e["redaction_policy"] = pol
+		b, _ := json.Marshal(e)
+		env, _ := envs.ReadEnvironment(b)
+		return env
+	}
+	red, plain := mkEnv("urns"), mkEnv("none")
+	props := []string{"urn", "tel", "twitter", "twitterid", "whatsapp", "mailto", "facebook", "telegram"}
+	ops := []string{"=", "!=", "~"}
+	for _, p := range props {
+		for _, op := range ops {
+			for _, val := range []string{"12065551212", "ann", `"206"`} {
+				q := fmt.Sprintf("%s %s %s", p, op, val)
+				c.Inc("urn_queries")
+				_, errR := contactql.ParseQuery(red, q, sa.Fields())
+				_, errP := contactql.ParseQuery(plain, q, sa.Fields())
+				if errR == nil {
+					ps = append(ps, sm.Problem{Key: "query-on-urns-accepted-under-redaction:" + p + ":" + op, What: "query `" + q + "` is accepted under the URN redaction policy"})
+				}
+				if errP != nil && op != "~" {
+					ps = append(ps, sm.Problem{Key: "query-on-urns-rejected-without-redaction:" + p, What: "query `" + q + "` is rejected without the policy: " + errP.Error()})
+				}
+				// inside a boolean combination too
+				q2 := `name = "x" OR (` + q + `)`
+				if _, err := contactql.ParseQuery(red, q2, sa.Fields()); err == nil {
+					ps = append(ps, sm.Problem{Key: "query-on-urns-accepted-under-redaction:nested:" + p + ":" + op, What: "query `" + q2 + "` is accepted under the URN redaction policy"})
+				}
+			}
+		}
+	}
+	// implicit conditions must not become URN conditions under redaction
+	for _, q := range []string{"+12065551212", "12065551212", "tel:+12065551212", "twitter:ann", "0788123123"} {
+		c.Inc("urn_queries")
+		parsed, err := contactql.ParseQuery(red, q, sa.Fields())
+		if err == nil {
+			insp := contactql.Inspect(parsed)
+			for _, sch := range insp.Schemes {
+				ps = append(ps, sm.Problem{Key: "implicit-query-becomes-urn-condition-under-redaction", What: fmt.Sprintf("implicit query `%s` queries URN scheme %s under redaction (%s)", q, sch, parsed.String())})
+			}
+			for _, a := range insp.Attributes {
+				if a == "urn" {
+					ps = append(ps, sm.Problem{Key: "implicit-query-becomes-urn-condition-under-redaction", What: fmt.Sprintf("implicit query `%s` queries urn under redaction (%s)", q, parsed.String())})
+				}
+			}
+		}
+	}
+	c.Fact("queries_checked")
+	return ps
+}
+
+func replayFn(c *mc.Ctx, raw json.RawMessage) (string, bool) {
+	var probe struct {
+		Queries bool `json:"queries"`
+	}
+	json.Unmarshal(raw, &probe)
+	var ps []sm.Problem
+	out := ""
+	if probe.Queries {
+		ps = judgeQueries(c)
+		out = "queries on URNs under both policies"
+	} else {
+		var rp replay
+		if err := json.Unmarshal(raw, &rp); err != nil {
+			return err.Error(), false
+		}
+		ps = judge(c, &rp.Spec, rp.Hist, true, false)
+		out = "root: " + rp.Spec.String() + " history: " + mc.JSON(rp.Hist)
+	}
+	for _, p := range ps {
+		out += "\nPROBLEM " + p.Key + ": " + p.What
+	}
+	return out, len(ps) > 0
+}
+
+var _ = types.XTextEmpty
+var _ flows.Session
+
+func init() {
+	mc.Register(&mc.Check{
+		ID:    "C19",
+		Level: "model_checking",
+		Rule: "non-interference checked on every reachable state: twin worlds that differ only in URN paths/display names (contact URNs, message URN, parent run's contact, refreshed contact; two tel channels whose match prefixes tell the twins' numbers apart) are driven in lockstep by a BFS over the real engine (canonical flow sets <= 2(+1) nodes over {save-what-expressions-see-of-URNs, set channel, add URN from input, sub-flows, waits} x {manual,msg,flow_action} x policies {urns,none}, nameless and channel-pinned variants; resumes {msg, msg with refreshed contact, run_expiration}; depth 2/3). " +
+			"In every state the fully forced expression context (every property incl. deprecated ones and defaults, every lazy array element, Render and Format) and the environment facts must be identical under policy urns and must differ under policy none; a generated corpus (every context path x every registered function with one argument, plus json()) is evaluated on both twins as an independent layer; contact queries on URNs must be rejected under the policy. distinct_nontrivial = roots with more than one state.",
+		Assumptions: []string{"evaluation is a pure function of context, environment and the harness-owned seams, so identical forced contexts imply identical template values", "the template corpus is evaluated on a subset of states (quick: the first two states of every 64th root; thorough: all states of every 4th root)"},
+		Run:         run,
+		Replay:      replayFn,
+		Budget:      map[string]time.Duration{"quick": 5 * time.Minute, "thorough": 25 * time.Minute},
+		Guards: func(r *mc.Result, tier string) []string {
+			var f []string
+			for _, fact := range []string{"redacted_state", "unredacted_twins_differ", "nameless_formatted", "queries_checked"} {
+				if r.Facts[fact] == 0 {
+					f = append(f, "never observed: "+fact)
+				}
+			}
+			if r.Counters["corpus_templates"] == 0 {
+				f = append(f, "template corpus not evaluated")
+			}
+			return f
+		},
+	})
+}
